@@ -761,6 +761,14 @@ def _():
     SCHEMA_POS_MIN5(PosInt)
 
 
+SCHEMA_POS_DESC = schema(description="just a description", title="Pos")
+
+
+@cfg("schema.PosInt.desc_only", "schemareg", "schema")
+def _():
+    SCHEMA_POS_DESC(PosInt)
+
+
 @cfg("schema.ShortStr", "schemareg", "schema")
 def _():
     SCHEMA_SHORT(ShortStr)
@@ -1192,6 +1200,61 @@ _ser("LPet.cat", "LPet", lambda: LCat("lcat", 1), "lpet", "disc", "alias")
 _ser("Rec.deep", "Rec", lambda: Rec(1, Rec(2, Rec(3))), "rec", "fields")
 _ser("SOD.plain", "SOD", lambda: SOD(4, "q", 1.5), "fields")
 
+# -- GraphQL: schema printing and execution (resolver results go through the cached
+#    partial serialization methods)
+def gq_p() -> P:
+    return P(1, "a", [1])
+
+
+def gq_op1() -> Op1:
+    return Op1(5)
+
+
+def gq_h() -> H:
+    return H(Op1(1), [Op1(2)])
+
+
+def gq_s1() -> S1:
+    return S1(1, [S1(2)])
+
+
+def gq_al() -> AL:
+    return AL("a", "b")
+
+
+def gq_echo(q: Q) -> int:
+    return q.req
+
+
+def _gql(resolvers, query=None):
+    import graphql
+    from apischema.graphql import graphql_schema
+
+    sch = graphql_schema(query=resolvers)
+    if query is None:
+        return graphql.print_schema(sch)
+    r = graphql.graphql_sync(sch, query)
+    return [r.data, [str(e) for e in (r.errors or [])]]
+
+
+def _gobs(name, resolvers, query, *tags):
+    def f(resolvers=resolvers, query=query):
+        return _gql(resolvers, query)
+
+    OBS[name] = f
+    OBS_TAGS[name] = tags + ("graphql",)
+
+
+_gobs("gqlprint.P", [gq_p], None, "alias", "typename", "schemareg", "schema")
+_gobs("gqlexec.P", [gq_p], "{ gqP { n nameX items } }", "alias", "exclude")
+_gobs("gqlprint.Op1", [gq_op1], None, "conv_s", "typename")
+_gobs("gqlexec.Op1", [gq_op1], "{ gqOp1 }", "conv_s")
+_gobs("gqlexec.H", [gq_h], "{ gqH { o os } }", "conv_s")
+_gobs("gqlprint.S1", [gq_s1], None, "serialized", "order", "schema")
+_gobs("gqlexec.S1", [gq_s1], "{ gqS1 { n s1Double kids { n } } }", "serialized")
+_gobs("gqlexec.AL", [gq_al], "{ gqAl { firstName lastName } }", "alias")
+_gobs("gqlexec.echo", [gq_echo], "{ gqEcho(q: {req: 3}) }", "alias", "coerce", "addprops", "schemareg")
+
 for _t, _tags in [
     ("P", ("alias", "addprops", "schemareg", "typename")), ("Q", ("alias",)), ("C", ()), ("N", ("schemareg",)),
     ("Op1", ("conv_d", "conv_s")), ("H", ("conv_d", "conv_s")), ("H3", ("op3",)), ("SOF", ("fields",)),
@@ -1203,6 +1266,12 @@ for _t, _tags in [
     _schemas(_t, *_tags)
 
 GENERATION_OBS = [o for o in OBS if o not in EXCLUDED_FROM_GENERATION]
+
+
+def same_target(cfg_name: str, obs_name: str) -> bool:
+    """the configuration operation names the very type the observation is about"""
+    cp, op = cfg_name.split("."), obs_name.split(".")
+    return len(cp) > 1 and len(op) > 1 and cp[1] == op[1]
 
 
 def related(cfg_name: str, obs_name: str) -> bool:
